@@ -304,3 +304,55 @@ def run(cx):
         c3 = b.calls('geom2::circle2::Circle2::from_3_points')
         okc = len(c3) == 1 and all(match('(index (param points) (call Uniform::sample _ _))', cx.arg(c3[0], k)) is not None for k in range(3))
         cx.ob('EXPR', 'ransac:candidates', okc, 'candidates are circles through three sampled input points', where=b.file)
+
+    # ---------------------------------------------------------------- Series1::best_fit_line (closed form) as an identity
+    b = cx.fn('func1::series1::Series1::best_fit_line')
+    if b:
+        from vpa.poly import rat_equal
+        rets = cx.rets(b)
+        okf = len(rets) == 1
+        e = match('(call *Polynomial::new_mxb $m $b)', rets[0][1]) if okf else None
+        okf = e is not None
+        if okf:
+            X, Y = '(field x (param self))', '(field y (param self))'
+            def atom(pat):
+                f_ = find(pat, rets[0][1])
+                return f_[0] if f_ else None
+            n = atom(f'(cast f64 (len {X}))')
+            sx = atom(f'(call Iterator::sum (call *::iter {X}))') or atom(f'(call Iterator::sum {X})')
+            sy = atom(f'(call Iterator::sum {Y})') or atom(f'(call Iterator::sum (call *::iter {Y}))')
+            sxx = sxy = None
+            for sub_ in subterms(rets[0][1]):
+                m_ = match('(call Iterator::sum (call Iterator::map $src (closure * ...)))', sub_)
+                if m_ is None:
+                    continue
+                cls_ = [c for c in cx.facts.closures_of(b.name) if c.path == sub_[2][3][1] or c.name == sub_[2][3][1]]
+                body_ = cx.retval(cls_[0]) if cls_ else None
+                if body_ is None:
+                    continue
+                if match(f'(call *::iter {X})', m_['src']) is not None or match(X, m_['src']) is not None:
+                    if match('(mul (param 2) (param 2))', body_) is not None or match('(call f64::mul (param 2) (param 2))', body_) is not None:
+                        sxx = sub_
+                elif match(f'(call Iterator::zip (call *::iter {X}) {Y})', m_['src']) is not None or match(f'(call Iterator::zip {X} {Y})', m_['src']) is not None:
+                    if match('(mul (field 0 (param 2)) (field 1 (param 2)))', body_) is not None or match('(call f64::mul (field 0 (param 2)) (field 1 (param 2)))', body_) is not None:
+                        sxy = sub_
+            okf = all(v is not None for v in (n, sx, sy, sxx, sxy))
+            if okf:
+                M = ('div', ('sub', ('mul', n, sxy), ('mul', sx, sy)), ('sub', ('mul', n, sxx), ('mul', sx, sx)))
+                B = ('div', ('sub', sy, ('mul', e['m'], sx)), n)
+                okf = rat_equal(e['m'], M) and rat_equal(e['b'], B)
+        cx.ob('ALGEBRA', 'best_fit_line', okf,
+              'the only exit returns slope (n Sxy - Sx Sy) / (n Sxx - Sx^2) and intercept (Sy - m Sx) / n over the sums of x, y, x^2, xy of the whole series (no other return, no threshold on the denominator)',
+              where=b.file)
+    # ---------------------------------------------------------------- RANSAC: every candidate's support is counted over ALL points
+    b = cx.fn('geom2::circle2::Circle2::ransac')
+    if b:
+        from vpa import term as T
+        okx, why = T.exhaustive_loops(cx, b)
+        cx.ob('ORDER', 'ransac:exhaustive', okx and len(b.loops()) == 2,
+              'neither the candidate loop nor the inlier count can be left early: every candidate is compared on its full support', where=b.file, found='; '.join(why) or None)
+        cnt = [s_ for s_ in b.calls('*Circle2::distance_to') if find('(itervar (param points))', cx.arg(s_, 1)) is not None or find('(index (param points) (itervar _))', cx.arg(s_, 1)) is not None]
+        inner = [lp for lp in b.loops() if cnt and cnt[0].bb in lp[1]]
+        inner = min(inner, key=lambda lp: len(lp[1])) if inner else None
+        okc = len(cnt) == 1 and inner is not None and all(b.dominates(cnt[0].bb, x) for x in inner[2])
+        cx.ob('ORDER', 'ransac:every-point-tested', okc, 'inside the count every point of the input is measured against the candidate (the distance test is on every cycle)', where=b.file)
